@@ -28,6 +28,8 @@ ENTRIES = {
     "with_user": (lambda P, t: P.URL("http://a:b%2540c@h:81/p").with_user(t), "user", True),
     "with_password": (lambda P, t: P.URL("http://a%3A:b@h/p").with_password(t), "password", True),
     "with_path": (lambda P, t: P.URL("http://h/x?q#f").with_path("/" + t), "path", True),
+    "with_path-noauth": (lambda P, t: P.URL("/x/y?q#f").with_path("/" + t), "path-noauth", True),
+    "build-path-noauth": (lambda P, t: P.URL.build(path="/" + t), "path-noauth", True),
     "with_name": (lambda P, t: P.URL("http://h/d%2Fe/x").with_name(t), "name", True),
     "with_suffix": (lambda P, t: P.URL("http://h/d/x%20y.t").with_suffix("." + t), "suffix", True),
     "with_fragment": (lambda P, t: P.URL("http://h/p?q").with_fragment(t), "fragment", True),
@@ -39,7 +41,7 @@ ENTRIES = {
     "joinpath": (lambda P, t: P.URL("http://h/d%2Fe").joinpath(t), "child", True),
     "join-ref": (lambda P, t: P.URL("http://h/b%2Fc/d%3Fe/f").join(P.URL(t)), "joinref", False),
 }
-SKELS = {"free1": [NS], "free2": [NS, NS], "esc": ["%", HEX, HEX], "esc+1": ["%", HEX, HEX, NS], "1+esc": [NS, "%", HEX, HEX], "free3": [NS, NS, NS]}
+SKELS = {"dots": [("in", "./a"), ("in", "./a"), ("in", "./a")], "free1": [NS], "free2": [NS, NS], "esc": ["%", HEX, HEX], "esc+1": ["%", HEX, HEX, NS], "1+esc": [NS, "%", HEX, HEX], "free3": [NS, NS, NS]}
 COMP_OF = {"user": "userinfo", "password": "userinfo", "path": "path", "query": "query", "fragment": "fragment"}
 
 
@@ -116,6 +118,10 @@ def h_c02(ctx, entry, skel):
             ctx.check("password-kept", sym_eq(u.raw_password, "b%2540c"))
         if entry == "with_password":
             ctx.check("user-kept", sym_eq(u.raw_user, "a%3A"))
+    elif where == "path-noauth":
+        ctx.observe("raw", u.raw_path)
+        ctx.check("same-tokens:path", sym_eq(O.pct_tokens(u.raw_path, "/", False, True), O.pct_tokens("/" + t, "/", False, esc)))
+        ctx.check("same-number-of-segments", len(u.raw_path.split("/")) == len(("/" + t).split("/")))
     elif where == "path":
         ctx.assume(all_of(["." not in t, no_dot_escape(t) if esc else True]), "no dot segments, literal or escaped (C15)")
         pre = "/a/" if entry.startswith("ctor") else "/"
@@ -180,6 +186,9 @@ def h_c06(ctx, entry, skel):
         ctx.assume("." not in t, "no dot segments under an authority (excepted by the statement)")
         ctx.check("path-reads-back", sym_eq(u.path, "/" + t))
         ctx.check("parts-are-decoded-raw_parts", sym_eq(tuple(u.parts), tuple(["/"] + ("/" + t).split("/")[1:])))
+    elif where == "path-noauth":
+        # without an authority dot segments are kept verbatim: the supplied text reads back as is
+        ctx.check("path-reads-back", sym_eq(u.path, "/" + t))
     elif where == "fragment":
         ctx.check("fragment-reads-back", sym_eq(u.fragment, t))
     elif where == "query":
@@ -206,13 +215,13 @@ def h_c06(ctx, entry, skel):
 def families(harness, tier, backends=("py", "c"), entries=None, decoded_only=False):
     q = tier == "quick"
     fams = []
-    skels = ["free1", "free2", "esc", "esc+1"] if q else list(SKELS)
+    skels = ["free1", "free2", "esc", "esc+1"] if q else [k for k in SKELS if k != "dots"]
     for e in ENTRIES:
         if entries is not None and e not in entries:
             continue
         if decoded_only and not ENTRIES[e][2]:
             continue
-        for sk in skels:
+        for sk in skels + (["dots"] if ENTRIES[e][1] == "path-noauth" else []):
             if q and sk in ("free2", "esc+1") and e.startswith(("with_query-pairs", "extend", "update", "build-query-dict")):
                 continue
             bk = backends if (not q or sk in ("free1", "esc")) else ("py",)
